@@ -171,6 +171,20 @@ def scenarios():
                     check_on, name, base, name)
                 yield ("inv-coroutine-function" + check_on.replace(", check_on=icontract.InvariantCheckEvent.", "/"), "class", dbc, name, d,
                        "C_{}().m()".format(name), "definition", "ValueError")
+    # reserved parameter names on an override without contracts of its own (its checker is created by the meta-class, not by a decorator)
+    for member_kind, head, base_sig in (("method", "", "self, x"), ("static", "    @staticmethod\n", "x"), ("class", "    @classmethod\n", "cls, x")):
+        for base_deco in ("require", "ensure"):
+            for reserved_sig, stage, exc in (("_ARGS", "definition", "TypeError"), ("_KWARGS", "definition", "TypeError"),
+                                             ("x, *_ARGS", "definition", "TypeError"), ("x, **_KWARGS", "definition", "TypeError"),
+                                             ("x", "none", None)):
+                n += 1
+                name = "f{}".format(n)
+                first = base_sig.split(", ")[0] + ", " if ", " in base_sig else ""
+                d = ("class B_{n}(icontract.DBC):\n{h}    @icontract.{bd}(lambda: True)\n    def m({bs}):\n        return 1\n\n\n"
+                     "class C_{n}(B_{n}):\n{h}    def m({f}{rs}):\n        return HUB.body({n!r}, {{}})").format(
+                         n=name, h=head, bd=base_deco, bs=base_sig, f=first, rs=reserved_sig)
+                tag = ("control-inherited-override" if exc is None else "inherited-override-param-" + reserved_sig.replace("x, ", "")) + "/" + member_kind + "/" + base_deco
+                yield (tag, "class", True, name, d, "C_{}().m(1)".format(name), stage, exc)
     # invalid error arguments
     for deco in ("require", "ensure", "invariant"):
         cond = "lambda self: True" if deco == "invariant" else "lambda: True"
